@@ -12,12 +12,13 @@ for ID in $IDS; do
   P=seeded/$ID/patch.diff
   test -s $P || continue
   git -C /repo apply $PWD/$P || { echo "$ID: patch does not apply"; continue; }
-  OUT=$(./check $ID 2>&1 | grep -v conda)
+  PID=${ID:0:3}
+  OUT=$(./check $PID 2>&1 | grep -v conda)
   RC=$?
   git -C /repo checkout -- .
-  LINE=$(echo "$OUT" | grep -E "^$ID tier" | head -1)
-  if echo "$OUT" | grep -q "^VIOLATION property=$ID .*no-failing-input-found"; then R=CAUGHT-NOINPUT
-  elif echo "$OUT" | grep -q "^VIOLATION property=$ID"; then R=CAUGHT
+  LINE=$(echo "$OUT" | grep -E "^$PID tier" | head -1)
+  if echo "$OUT" | grep -q "^VIOLATION property=$PID .*no-failing-input-found"; then R=CAUGHT-NOINPUT
+  elif echo "$OUT" | grep -q "^VIOLATION property=$PID"; then R=CAUGHT
   else R=MISSED; fi
   echo "$ID: $R  [$LINE]"
 done
